@@ -1,4 +1,4 @@
-use std::collections::HashMap;
+use std::collections::BTreeMap;
 
 use serde_json::{
     Error, Map,
@@ -74,7 +74,8 @@ fn parse_layer(value: &RawValue, remaining_depth: u8) -> std::result::Result<Jso
             serde_json::value::to_value(raw_value)
         } else {
             // Parse each value of the object as a raw JSON value recursively with the same method.
-            let map: HashMap<String, &RawValue> = serde_json::from_str(raw_value)?;
+            // Ordered map: which member's error is reported must not depend on hash iteration order.
+            let map: BTreeMap<String, &RawValue> = serde_json::from_str(raw_value)?;
 
             let mut res_map: Map<String, JsonValue> = Map::with_capacity(map.len());
             for (k, v) in map {
